@@ -26,8 +26,33 @@ ALPHA = lpcap.ALPHA
 def handler(case):
     if case["kind"] == "quiet":
         return quiet_case(case)
-    ps, records = lpcap.run_and_capture(case)
     ops, impl, viols = [], [], []
+    st = {}
+
+    def observe(ps, phase, info):
+        # independent of which islands the simulator passed to the shedding routine: at the end of every logged increment,
+        # every island found by the simulator that does not contain the feed has shed at least its demand minus the
+        # production available inside it (demand from the load profiles, supply and shed energy read from the buses)
+        from relsad.network.systems import Transmission
+        if phase == "after_set_load":
+            i_ = info["inc"]
+            st["p0"] = {b.name: sum(float(d[i_]) for d in b.pload_data) * b.n_customers for b in ps.buses}
+        elif phase == "before_log":
+            dt = (info["curr"] - info["prev"]).get_hours()
+            if dt <= 0 or not (ps.failed_comp() or not ps.full_batteries()):
+                return          # the closing record of an outage: islands were not formed in this increment
+            for sub in ps.sub_systems:
+                if any(isinstance(n, Transmission) and n.get_trafo_bus() in sub.buses for n in ps.child_network_list):
+                    continue
+                dem = sum(st["p0"].get(b.name, 0.0) for b in sub.buses)
+                sup = sum(max(0.0, float(b.pprod)) for b in sub.buses)
+                shd = sum(float(b.p_energy_shed_stack) for b in sub.buses) / dt
+                nb = len(sub.buses)
+                if dem > float(ALPHA) * (nb + 1) and shd < dem - sup - 2 * nb * float(ALPHA) - 1e-9:
+                    viols.append(("island.balance-end", f"increment ending at {info['curr'].get_hours()} h: island {[b.name for b in sub.buses]} without the feed demands {dem} MW, "
+                                                        f"holds {sup} MW of supply and has shed {shd} MW"))
+
+    ps, records = lpcap.run_and_capture(case, observe=observe)
     sig = set()
     q_ops, q_meta = [], []
     for r in records:
